@@ -79,8 +79,7 @@ def sc_ahb(name, expr, rc, text="x1y2", packages=None):
     """parse (+ resolve packages) and evaluate an AHB expression"""
     from ahbicht.content_evaluation.fc_evaluators import text_to_be_evaluated_by_format_constraint as var
     from ahbicht.expressions.ahb_expression_evaluation import evaluate_ahb_expression_tree
-    from ahbicht.expressions.ahb_expression_parser import parse_ahb_expression_to_single_requirement_indicator_expressions
-    from ahbicht.expressions.expression_resolver import AhbExpressionResolverTransformer, parse_expression_including_unresolved_subexpressions
+    from ahbicht.expressions.expression_resolver import parse_expression_including_unresolved_subexpressions
     ev = GT.make_evaluators(rc_values=rc, fc_rule=fc_rule, packages=packages)
     resolve = packages is not None
 
@@ -88,7 +87,11 @@ def sc_ahb(name, expr, rc, text="x1y2", packages=None):
         return await parse_expression_including_unresolved_subexpressions(expr, resolve_packages=resolve)
 
     resolved = _auto(parse, ev)
-    unresolved = AhbExpressionResolverTransformer().transform(parse_ahb_expression_to_single_requirement_indicator_expressions(expr))
+
+    async def parse_unresolved():          # public API only: the tree before package expansion (no awaitable is involved without packages)
+        return await parse_expression_including_unresolved_subexpressions(expr, resolve_packages=False, replace_time_conditions=False)
+
+    unresolved = _auto(parse_unresolved, ev)
     plan = PL.seq(PL.set_(text), PL.plan_expand_packages(unresolved) if resolve else None,
                   PL.plan_ahb_evaluation(ahb_parts(resolved, ev), text_tag=f"@{text}"))
 
